@@ -516,7 +516,7 @@ func (s *Sim) checkAccessJustified(r *Req) {
 	s.mu.Lock()
 	for _, q := range s.tr.reqs {
 		if q.CIdx == r.CIdx && q.Type == "auth" && strings.HasPrefix(q.Outcome, "rid:") {
-			if name, _ := splitRID(q.Outcome[4:]); name == r.Name {
+			if name, _ := splitRID(q.Outcome[4:]); name == r.Name || (r.CID != "" && strings.ReplaceAll(name, "{cid}", r.CID) == r.Name) {
 				s.mu.Unlock()
 				return
 			}
@@ -535,6 +535,10 @@ func (s *Sim) resultNames(c *Client, o *CReq) map[string]bool {
 		if q.CIdx == c.CIdx && (q.Type == "call" || q.Type == "auth") && strings.HasPrefix(q.Outcome, "rid:") {
 			n, _ := splitRID(q.Outcome[4:])
 			out[n] = true
+			// (the answer may name the caller's own resource by the tag)
+			if strings.Contains(n, "{cid}") && c.CID != "" {
+				out[strings.ReplaceAll(n, "{cid}", c.CID)] = true
+			}
 		}
 	}
 	return out
@@ -701,6 +705,13 @@ func (s *Sim) accessQuiescence() {
 func (s *Sim) checkNoEventBeforeVerdict(t *Trigger, c *Client, rid string) {
 	if c.Tainted != "" || c.Failed != "" || c.Fuzzy[rid] {
 		return
+	}
+	for _, o := range c.ReqL {
+		if o.RID == rid && o.Seq > t.DlvSeq {
+			// the client released the subscription or made a new request on the rid
+			// after the trigger: those bring their own checks and verdicts
+			return
+		}
 	}
 	name, query := splitRID(c.expandCID(rid))
 	_, v := s.W.lookup(c.expandCID(rid))
@@ -1022,6 +1033,15 @@ func buildAccessProfile(s *Sim, r *rand.Rand, p *ProfileParams, arm func(string,
 	s.Cfg.Gw.NoUnsubscribeDelay = r.IntN(4) == 0
 	s.Cfg.Gw.ResetThrottle = rpick(r, []int{0, 0, 1, 2, 7})
 	buildCoreWorld(s, r, 3+r.IntN(4))
+	// (drawn last, so that the worlds of the other runs stay as they were)
+	defer func() {
+		if r.IntN(8) == 0 {
+			// token events, token resets and disconnects with a scheduling point
+			// before every outermost lock acquisition (rule R8)
+			p.Faults["lockyield"] = true
+			p.MaxSteps *= 3
+		}
+	}()
 	p.Methods = callMethods
 	// policies: some resources deny get or restrict calls, per resource or per token
 	w := s.W
@@ -1118,6 +1138,14 @@ func genAccessSvcOp(s *Sim) (Decision, bool) {
 }
 
 func genAccessOutcome(s *Sim, r *Req, draining bool) string {
+	if (r.Type == "call" || r.Type == "auth") && s.chance(0.05) {
+		// a resource response that names the caller's own resource by the tag
+		for _, rid := range s.Cfg.P.RIDs {
+			if rid == "ex.user.{cid}" {
+				return "rid:ex.user.{cid}"
+			}
+		}
+	}
 	if r.Type == "call" && r.Method != "new" && s.chance(0.15) {
 		names := s.liveNames()
 		if len(names) > 0 {
